@@ -14,7 +14,7 @@ FN == INSTANCE FreqNorm WITH TOT <- 4096, MaxSyms <- 256, MaxCount <- 0, Variant
 PC == INSTANCE PrefixCode WITH HMaxSyms <- 256, HMaxCount <- 0, Strategy <- "any",
                                hf <- <<>>, forest <- {}, code <- <<>>, hpc <- "done"
 
-KnownIds == {"C01-KF1", "C01-KF2", "C01-KF3", "C01-KF4"}
+KnownIds == {"C01-KF1", "C01-KF2", "C01-KF3", "C01-KF4", "C01-KF5"}
 
 Wrong(e) == e.ok /\ (e.y.len # enc[e.b].x.len \/ e.y.h # enc[e.b].x.h)
 
@@ -66,6 +66,17 @@ G4(e, subj, mech) == /\ subj.fam = "odict"
                      /\ e.y.len = enc[e.b].x.len
 KF4(e, subj, mech, mech2) == UNCHANGED csvars /\ mech2 = mech
 
+(* C01-KF5: a NON-ADAPTIVE FSE encoder (FseConfig::realtime) keeps the table of its first compress *)
+(* call; a later payload containing a byte without a slot in that table is not refused: the        *)
+(* encoder writes 0xFF + literal into the rANS stream and returns Ok, the decoder returns other     *)
+(* bytes.  Trigger: preset with adaptive = false, model trained on data other than the payload.     *)
+(* (On the pinned tree C01-KF2 hides it: the realtime decoder refuses every blob >= 100 bytes.)     *)
+G5(e, subj, mech) == /\ subj.fam = "fse" /\ subj.variant = "realtime"
+                     /\ e.op = "decode" /\ Matching(e.c, e.b, e.n) /\ Wrong(e)
+                     /\ ~mech.starved
+                     /\ enc[e.b].m.trained /\ OtherModel(e)
+KF5(e, subj, mech, mech2) == UNCHANGED csvars /\ mech2 = mech
+
 (* guard (state predicate) and action of each deviation; mech2 is the next value of the trace   *)
 (* specification's mech variable                                                                 *)
 DevApplies(id, e, subj, mech) ==
@@ -73,9 +84,11 @@ DevApplies(id, e, subj, mech) ==
     \/ id = "C01-KF2" /\ G2(e, subj, mech)
     \/ id = "C01-KF3" /\ G3(e, subj, mech)
     \/ id = "C01-KF4" /\ G4(e, subj, mech)
+    \/ id = "C01-KF5" /\ G5(e, subj, mech)
 KnownDeviation(id, e, subj, mech, mech2) ==
     \/ id = "C01-KF1" /\ KF1(e, subj, mech, mech2)
     \/ id = "C01-KF2" /\ KF2(e, subj, mech, mech2)
     \/ id = "C01-KF3" /\ KF3(e, subj, mech, mech2)
     \/ id = "C01-KF4" /\ KF4(e, subj, mech, mech2)
+    \/ id = "C01-KF5" /\ KF5(e, subj, mech, mech2)
 =============================================================================
